@@ -28,6 +28,27 @@ CLAIMS = {
         "is not decided. Ellipse's persistent geometry overrides are known findings.",
    technique="typestate/dataflow over lazyproperty caches + guard truth tables + must-assigned analysis (AST)",
    design="4 C09, 3.2, 3.3"),
+ 'C05': dict(
+   text="Cache coherence of SegmentationImage decided for every history: per (public mutator, lazyproperty) pair the three-valued "
+        "stale-cache dataflow proves each write of the label array or deblend map is followed on every path by an invalidation (L1, "
+        "exhaustive over 30 entries x 20 lazies), plus COUPLED (label array and deblend map change together), D3 (who may seed private "
+        "state from outside), NEGZERO (zero border width), T-CARD (one entry per label), LABELSET (no label 0 in bookkeeping), DTYPE-KEEP "
+        "and A2. Orders of operations are covered because obligations are per (writer, cache) pair.",
+   note="Trusted: ALLOWED_SEEDS rows (labels/slices re-seeded by relabel_consecutive and the data setter equal what the getters compute), "
+        "external models for rasterio shapes and scipy find_objects. Not decided: that relabel_map[data] has the documented set-theoretic "
+        "effect. Known finding: polygons are per connected region.",
+   technique="typestate dataflow over lazyproperty caches + path-event sets + who-may-write table (AST)",
+   design="4 C05"),
+ 'C19': dict(
+   text="History clause (normalize/unnormalize interleaved with first reads) decided by L1/L2 on the three profile classes, ATOMIC "
+        "(normalization_value, profile, profile_error updated all-or-nothing on every path) and MIRROR (profile_error rescaled exactly "
+        "like profile); plumbing clause decided by SLOT (profile/area/errors are the matching slots of the nested-aperture photometry; "
+        "RadialProfile = diff(sum)/diff(area), errors in quadrature) and SIB (do_photometry and area_overlap get the same "
+        "mask/method/subpixels). Necessary structural conditions of the property, for all inputs.",
+   note="Not decided: the aperture sums themselves (C02), monotonicity, interpolator inversion, restoration to rounding. Spec forms are "
+        "compared as algebraic normal forms with accepted alternatives listed in the rule.",
+   technique="lazy-cache typestate + path-event sets + normal-form comparison of getter expressions (AST)",
+   design="4 C19"),
 }
 
 fix_commits = subprocess.run(['git', '-C', '/repo', 'log', '--format=%h %s', '8203d59..HEAD'],
